@@ -35,6 +35,8 @@ def run(ctx, chk):
     a2(fb, chk)
     a3(fb, chk)
     a4(fb, chk)
+    from . import xlist
+    xlist.apply("C06", fb, chk)
     n = lambda r: len([i for i in chk.instances if i[0] == r])
     # reply/request headers and bodies are accepted through validators whose exactness is decided by C20/X2
     from vlint.report import Renamed as _Renamed
